@@ -1,3 +1,31 @@
-// ---- rule R30g: a boxed in-flight future of the async port (stored between polls by the walk_dir stream); opaque
+use std::task::Poll;
+// ---- rule R30g/R30i: the hand-written stream state machine of the async port (WalkDirIterator::poll_next)
+#[verifier::external_type_specification]
+#[verifier::accept_recursive_types(T)]
+pub struct ExPoll<T>(std::task::Poll<T>);
+
+/// a boxed in-flight future; which call it will perform when polled to completion is ghost state
 #[verifier::external_body]
-pub struct PendingFuture { _p: u8 }
+#[verifier::reject_recursive_types(T)]
+pub struct PendingFuture<T> { _p: std::marker::PhantomData<T> }
+pub enum FutCall { ReadDir(VfsPath), Metadata(VfsPath) }
+pub uninterp spec fn fut_call<T>(f: PendingFuture<T>) -> FutCall;
+
+/// `Box::pin(async move { d.read_dir().await })`: nothing happens until the future is polled
+#[verifier::external_body]
+fn verif_future_read_dir(d: VfsPath) -> (f: PendingFuture<Result<std::vec::IntoIter<VfsPath>, VfsError>>)
+    ensures fut_call(f) == FutCall::ReadDir(d)
+{ unimplemented!() }
+#[verifier::external_body]
+fn verif_future_metadata(p: VfsPath) -> (f: PendingFuture<Result<VfsMetadata, VfsError>>)
+    ensures fut_call(f) == FutCall::Metadata(p)
+{ unimplemented!() }
+
+/// polling a listing stream: Pending (nothing consumed) or Ready(next item)
+#[verifier::external_body]
+fn verif_poll_stream(s: &mut std::vec::IntoIter<VfsPath>) -> (r: Poll<Option<VfsPath>>)
+    ensures r is Pending ==> (*final(s)).remaining() == (*old(s)).remaining(),
+            r matches Poll::Ready(None) ==> (*old(s)).remaining().len() == 0 && (*final(s)).remaining().len() == 0,
+            r matches Poll::Ready(Some(x)) ==> (*old(s)).remaining().len() > 0 && x == (*old(s)).remaining()[0] && (*final(s)).remaining() == (*old(s)).remaining().skip(1),
+            (*final(s)).decrease() is Some,
+{ unimplemented!() }
